@@ -146,7 +146,7 @@ def impl_scalar(el, b):
 
 
 def export(kind, arr, scale=1):
-    return C.export_fixarr(arr, scale) if kind == 'point' else C.export_listarr(arr, scale)
+    return U.export_points(arr, scale) if kind == 'point' else U.export_array(kind, arr, scale)
 
 
 def viol(rep, sig, what, rp):
